@@ -11,8 +11,11 @@ import sys
 import time
 
 VERIF = os.path.dirname(os.path.dirname(os.path.dirname(os.path.abspath(__file__))))
-EVIDENCE_DIR = os.path.join(VERIF, 'evidence')
-REPLAY_DIR = os.path.join(VERIF, 'replays')
+# VERIF_OUT (development aids only: tools/seedcheck.py, tools/mutsweep.py run checks against scratch trees in parallel)
+# redirects evidence and replay artefacts; registered commands never set it
+_OUT = os.environ.get('VERIF_OUT') or VERIF
+EVIDENCE_DIR = os.path.join(_OUT, 'evidence')
+REPLAY_DIR = os.path.join(_OUT, 'replays')
 FINDINGS_FILE = os.path.join(VERIF, 'known_findings.json')
 
 MAX_VIOL_KEPT = 60          # per partial; the total is still counted
@@ -227,6 +230,21 @@ class Report(object):
                 if status == 'violated':
                     lines.append('VIOLATION property=%s replay=%s' % (self.pid, path))
                     print('  sig=%s\n  detail=%s' % (v['sig'], str(v['detail'])[:600]))
+                    rc = 1
+                elif status == 'not-reproduced':
+                    # Observed during the exploration, reproducibly absent when the same case is run alone in a fresh
+                    # process: the implementation's answer depended on what the exploring process had handled before
+                    # (hidden state).  The wrong answer was given to a well-formed case, so it is a violation; the
+                    # artefact is replayed by re-running the check (mc.run), not the single case.
+                    with open(path) as f:
+                        art = json.load(f)
+                    art['history_dependent'] = True
+                    art['tier'] = self.tier
+                    with open(path, 'w') as f:
+                        json.dump(art, f, indent=1, sort_keys=True)
+                    lines.append('VIOLATION property=%s replay=%s' % (self.pid, path))
+                    print('  sig=%s (history-dependent: not reproduced by the case alone in a fresh process)\n  detail=%s'
+                          % (v['sig'], str(v['detail'])[:600]))
                     rc = 1
                 else:
                     nondet = True
